@@ -289,7 +289,10 @@ PROPS['C16'] = {
 }
 PROPS['C11'] = {
     'module': 'RQ.Props.C11',
-    'theorems': ['RQ.Parse.C11_fuel', 'RQ.Parse.C11_noMatch', 'RQ.Parse.C11_wf', 'RQ.Parse.C11_alloc', 'RQ.Parse.C11_scan_bounded', 'RQ.Parse.C11_strip_bounded', 'RQ.Parse.C11_strip_huge_refused'],
+    'theorems': ['RQ.Parse.C11_fuel', 'RQ.Parse.C11_noMatch', 'RQ.Parse.C11_wf', 'RQ.Parse.C11_alloc', 'RQ.Parse.C11_scan_bounded', 'RQ.Parse.C11_strip_bounded', 'RQ.Parse.C11_strip_huge_refused',
+                 'RQ.Push.C11_push_never_panics', 'RQ.Push.C11_push_exit', 'RQ.Push.C11_apply_total', 'RQ.Push.C11_applyOne_never_panics',
+                 'RQ.Push.C11_applyPatches_never_panics', 'RQ.Par.C11_par_never_panics', 'RQ.Par.C11_par_driver_never_panics'],
+    'extra_modules': ['RQ.Props.C11Push'],
     'verdict': 'C11',
     'jobs': [{'quick': ['parse', 'seed={seed}', 'n=60000'], 'thorough': ['parse', 'seed={seed}', 'n=1500000', 'huge=4']},
              {'quick': ['series', 'seed={seed}', 'n=20000'], 'thorough': ['series', 'seed={seed}', 'n=400000']}] +
